@@ -5,8 +5,10 @@
 mod ast;
 mod bdays;
 mod c10;
+mod c11;
 mod c14;
 mod c15;
+mod c18;
 mod cal;
 mod c19;
 mod c20;
@@ -36,6 +38,10 @@ fn exec_line(line: &str) -> String {
         c15::exec(op, args)
     } else if op.starts_with("chr.") {
         cal::exec(op, args)
+    } else if op.starts_with("pur.") {
+        c18::exec(op, args)
+    } else if op.starts_with("sun.") {
+        c11::exec(op, args)
     } else if op.starts_with("hol.") {
         c10::exec(op, args)
     } else if op.starts_with("nz.") {
@@ -50,7 +56,7 @@ fn exec_line(line: &str) -> String {
         None
     };
     let dt = t0.elapsed().as_secs_f64();
-    if dt > 0.25 {
+    if dt > 0.25 && !op.starts_with("pur.") && !op.starts_with("sun.scan") {
         eprintln!("slow-op {dt:.2}s {line}");
     }
     match res {
@@ -83,11 +89,19 @@ fn main() {
                 "tz" => tz::gen(tier, &mut rng, &mut emit),
                 "nz" => nz::gen(tier, &mut rng, &mut emit),
                 "c10" => c10::gen(tier, &mut rng, &mut emit),
+                "c18" => c18::gen(tier, &mut rng, &mut emit),
+                "c11" => c11::gen(tier, &mut rng, &mut emit),
                 _ => {
                     eprintln!("unknown suite {suite}");
                     std::process::exit(2);
                 }
             }
+        }
+        // hidden: the fresh process of `pur.firstuse` (suite c18)
+        Some("c18-child") if args.len() >= 3 => {
+            drop(w);
+            c18::child_main(&args[2]);
+            return;
         }
         Some("tzscan") => tztable::scan_report(),
         Some("exec") => {
